@@ -33,6 +33,8 @@ VARIANTS = {
     "tsan-nopool": ("gcc", ["-O1", "-g", "-DDISABLE_OBJECT_POOL", "-fsanitize=thread"],
                     ["-fsanitize=thread"]),
     "plain": ("gcc", ["-O1", "-g"], []),
+    # one callback per executed basic block (harness/cost.c counts them): the cost measure of C07
+    "cov": ("gcc", ["-O1", "-g0", "-fsanitize-coverage=trace-pc"], []),
 }
 RUN_ENV = dict(os.environ, ASAN_OPTIONS="detect_leaks=0:abort_on_error=0:allocator_may_return_null=1",
                UBSAN_OPTIONS="print_stacktrace=1:halt_on_error=1")
@@ -143,7 +145,7 @@ def build_variant(variant, extra_defs=()):
                 os.unlink(lib)
             subprocess.run(["ar", "rcs", lib] + [os.path.join(odir, s + ".o") for s in LIB_SOURCES], check=True)
         cli = os.path.join(vdir, "multimarkdown")
-        if jobs or not os.path.exists(cli):
+        if (jobs or not os.path.exists(cli)) and variant != "cov":     # (the cov objects need the counting callback of harness/cost.c)
             subprocess.run([cc] + ldflags + [os.path.join(odir, s + ".o") for s in CLI_SOURCES]
                            + [lib, "-lm", "-o", cli], check=True)
     return vdir
